@@ -1346,7 +1346,10 @@ func genOrderQuery(t *rapid.T) string {
 	if rapid.IntRange(0, 3).Draw(t, "obytes") == 0 {
 		// name and value compared as one string: a UTF-8 sequence split across the '=' (and its neighbours in the order)
 		prefix = "k"
-		tails = []string{"%C3=%A9", "%C3%A9=", "=%C3%A9", "%EF%BF%BD=", "%C3=", "z=", "%C3%AA=", "%C3=%A9%C3", "=", "%E6%97=%A5"}
+		// ... and truncated sequences at the very end of a name (lead byte plus some continuation bytes),
+		// next to names that sort between one and several U+FFFD
+		tails = []string{"%C3=%A9", "%C3%A9=", "=%C3%A9", "%EF%BF%BD=", "%C3=", "z=", "%C3%AA=", "%C3=%A9%C3", "=", "%E6%97=%A5",
+			"%E2%82=", "%EF%BF%BDa=", "%F0%9F%98=", "%EF%BF%BD%EF%BF%BD=", "%EF%BF%BD%EF%BF%BDa=", "%E2%82a=", "=%E2%82", "=%EF%BF%BDa"}
 		n := rapid.IntRange(2, 5).Draw(t, "onames")
 		if rapid.IntRange(0, 2).Draw(t, "olong") == 0 {
 			n = rapid.SampledFrom([]int{63, 64, 65, 70, 128}).Draw(t, "olen")
